@@ -1,6 +1,6 @@
 (* Properties_C02.v — C02: the request body reaches the reader intact under every segmentation. *)
 From Coq Require Import String List ZArith.
-From QH Require Import Bytes Parser HeaderMap SocketM SockProofs BytesProofs C02Proofs.
+From QH Require Import Bytes Parser HeaderMap SocketM SockProofs BytesProofs C02Proofs Interleave.
 Import ListNotations.
 Local Open Scope Z_scope.
 
@@ -72,3 +72,12 @@ Theorem C02_avail_is_readall : forall s,
   exists out, snd (do_read_all s) = [ERead out] /\ avail s = blen out.
 Proof. exact avail_is_readall. Qed.
 Print Assumptions C02_avail_is_readall.
+
+(* several connections deliver their requests at once, segments interleaved in any order: what each connection's reader
+   sees - head parsed, body bytes, their order - is what it would see alone.  No parsing progress, buffered byte or
+   counter of one connection shows in another (the sockets share nothing). *)
+Theorem C02_connections_independent : forall e p sched ss i s,
+  nth_error ss i = Some s ->
+  proj ev i (irun sock op ev (step e p) ss sched) = run sock op ev (step e p) s (ops_of op i sched).
+Proof. intros e p. exact (interleaving_independent sock op ev (step e p)). Qed.
+Print Assumptions C02_connections_independent.
